@@ -411,9 +411,19 @@ func work(a lib.Args) {
 	}
 
 	coq := make([]string, len(cases))
+	hangs := 0
 	for i := range cases {
 		c := &cases[i]
 		e := envs[c.Cfg.AE]
+		if hangs >= 6 {
+			// the server has stopped answering six times: enough evidence, the rest would only repeat it
+			res.Count("skipped-after-repeated-hangs")
+			coq[i] = ""
+			continue
+		}
+		if c.Cfg.Host != e.Cfg.Host {
+			c.Rebase(e) // generated for an instance that has been replaced since
+		}
 		e.ResetStores()
 		acc.Progress(a.Out, c)
 		rn := acc.NewRunner(e, c.Name)
@@ -433,6 +443,7 @@ func work(a lib.Args) {
 			oracleHist(*c, i, res)
 		}
 		if rn.Hung { // this instance no longer answers: the following cases get a fresh one
+			hangs++
 			res.Count("server-replaced-after-hang")
 			envs[c.Cfg.AE] = acc.StartMockAPI(c.Cfg.AE)
 		}
@@ -485,7 +496,14 @@ func work(a lib.Args) {
 		res.Sample(c)
 		res.Cases = append(res.Cases, *c)
 	}
-	res.Evaluations = len(cases)
+	kept := coq[:0]
+	for _, t := range coq {
+		if t != "" {
+			kept = append(kept, t)
+		}
+	}
+	coq = kept
+	res.Evaluations = len(coq)
 	if _, err := lib.WriteShards(a.Out, acc.Header("C11"), "case", coq, res.ShardSize); err != nil {
 		fmt.Fprintln(os.Stderr, err)
 		os.Exit(2)
